@@ -225,6 +225,28 @@ static void enumerate(void) {
       } }
     /* pages whose values repeat with a short period, compressed by a reference compressor that emits real matches: copy distances of
      * width x period bytes (1..48) with long lengths, in Snappy and LZ4 */
+    /* dictionaries of 600..40 000 entries: index bit widths 10..16 (two-byte and three-byte fields at every bit offset), every entry referenced, in the three run forms */
+    mc_stage("large-dictionaries.index-widths-10-to-16");
+    { static const int NL[] = { 600, 1500, 3000, 5000, 12000, 20000, 40000 }; static const int TL[] = { PT_INT32, PT_INT64 }; static const int IF[] = { REF_H_BP_ONLY, REF_H_MIXED, REF_H_SINGLE_GROUPS };
+      for (int ni = 0; ni < 7; ni++) for (int ti = 0; ti < 2; ti++) for (int fi = 0; fi < 3; fi++) for (int pg = 0; pg < 2; pg++) for (int opt = 0; opt < 2; opt++) {
+          if (ni >= 4 && (ti || pg || opt) && !mc_thorough()) continue;      /* quick: the largest dictionaries (the reference writer's dictionary search is quadratic) in the three run forms only */
+          if (!mc_next()) continue;
+          rfile_t f; memset(&f, 0, sizeof f); f.ncols = 1; f.N = NL[ni]; f.nrg = 1; f.codec = CODEC_NONE; f.crc = true; f.dict_offset_present = true; f.pattern = 3; f.col[0].ptype = TL[ti]; f.enc[0] = ENC_RLE_DICT; f.index_form = IF[fi]; f.level_form = REF_H_MIXED;
+          f.col[0].opt = opt; f.mask[0] = opt ? 0x8000400020001ull : 0;
+          if (pg) { f.npages[0] = 2; f.page_levels[0][0] = f.N / 3 + 1; f.page_levels[0][1] = f.N - f.N / 3 - 1; }
+          mc_desc("c06:large-dictionary;n=%d;type=%s;index-form=%d;pages=%d;opt=%d", f.N, ti ? "i64" : "i32", IF[fi], pg + 1, opt); mc_case_key(mc_mix(0xc06d, ((uint64_t)ni << 24) | ((uint64_t)ti << 16) | ((uint64_t)fi << 8) | ((uint64_t)pg << 1) | (uint64_t)opt)); mc_nontrivial(); mc_budget_ms(20000);
+          ref_buf img; ref_buf_init(&img); static ref_coldata cols[4]; int np = 0; if (rf_build(&RA, &f, &img, NULL, 0, &np, cols)) mc_harness_error("reference writer failed (large dictionary)");
+          uint8_t* x = mc_exact(img.p, img.n); carquet_error_t err = CARQUET_ERROR_INIT; carquet_reader_t* rd = carquet_reader_open_buffer(x, img.n, NULL, &err);
+          if (!rd) mc_fail("large-dictionary.open-failed", "code %d %s", err.code, err.message);
+          else { carquet_column_reader_t* cr = carquet_reader_get_column(rd, 0, 0, &err); int w = ref_type_width(TL[ti], 0);
+              if (!cr) mc_fail("large-dictionary.column-open-failed", "code %d %s", err.code, err.message);
+              else { uint8_t* vb = mc_exact(NULL, (size_t)w * (size_t)f.N); int16_t* db = mc_exact(NULL, 2 * (size_t)f.N); int64_t got = carquet_column_read_batch(cr, vb, f.N, db, NULL);
+                  if (got != f.N || memcmp(vb, cols[0].fixed, (size_t)w * (size_t)cols[0].nvalues)) { int64_t at = -1; for (int64_t q = 0; q < cols[0].nvalues && at < 0; q++) if (memcmp(vb + q * w, cols[0].fixed + q * w, (size_t)w)) at = q;
+                      mc_fail("large-dictionary.read", "read_batch(%d) returned %lld; first wrong value: #%lld of %lld (dictionary of %lld entries)", f.N, (long long)got, (long long)at, (long long)cols[0].nvalues, (long long)cols[0].nvalues); }
+                  free(vb); free(db); carquet_column_reader_free(cr); }
+              carquet_reader_close(rd); }
+          free(x); ref_buf_free(&img); ref_arena_free(&RA);
+      } }
     mc_stage("repeating-values.real-matches");
     { static const struct { int pt, tl; const char* n; } TYS[] = { { PT_INT32, 0, "i32" }, { PT_INT64, 0, "i64" }, { PT_DOUBLE, 0, "f64" }, { PT_INT96, 0, "i96" }, { PT_FLBA, 1, "flba1" }, { PT_FLBA, 3, "flba3" }, { PT_FLBA, 5, "flba5" }, { PT_FLBA, 7, "flba7" }, { PT_FLBA, 16, "flba16" } };
       static const int NN[] = { 8, 40, 300, 5000 }; static const int CDF[] = { CODEC_SNAPPY, CODEC_LZ4_RAW };
